@@ -68,7 +68,11 @@ func sortOf1(t types.Type) *Sort {
 			sortCache[t] = s
 			fs := make([]DTField, u.NumFields())
 			for i := 0; i < u.NumFields(); i++ {
-				fs[i] = DTField{fieldSelName(u.Field(i)), sortOf(u.Field(i).Type())}
+				nm := fieldSelName(u.Field(i))
+				if nm == "_" {
+					nm = fmt.Sprintf("_blank%d", i)
+				}
+				fs[i] = DTField{nm, sortOf(u.Field(i).Type())}
 			}
 			s.DT.Fields = fs
 		}
